@@ -410,6 +410,18 @@ func (s *shadow) pickSender(r *Rng) int {
 	return r.Intn(nActors)
 }
 
+func perm(r *Rng, n int) []int {
+	p := make([]int, n)
+	for i := range p {
+		p[i] = i
+	}
+	for i := n - 1; i > 0; i-- {
+		j := r.Intn(i + 1)
+		p[i], p[j] = p[j], p[i]
+	}
+	return p
+}
+
 func genLeaf(r *Rng, s *shadow) c16Msg {
 	sender := s.pickSender(r)
 	switch r.Pick(18, 16, 3, 13, 50) {
@@ -420,14 +432,21 @@ func genLeaf(r *Rng, s *shadow) c16Msg {
 			m.Cs = append(m.Cs, r.Intn(nActors))
 		}
 		m.Action = []string{"add", "remove", "add", "remove", "bogus"}[r.Pick(40, 35, 0, 0, 6)]
-		if m.Action == "remove" && len(s.contracts) > 0 && r.Chance(2, 3) {
-			// remove somebody who is listed
+		if m.Action == "remove" && len(s.contracts) > 0 && r.Chance(3, 4) {
+			// remove listed accounts: one, or several in one message (any subset, any order)
 			var l []int
 			for c := range s.contracts {
 				l = append(l, c)
 			}
 			sort.Ints(l)
 			m.Cs = []int{l[r.Intn(len(l))]}
+			if len(l) > 1 && r.Chance(1, 2) {
+				k := r.Range(2, len(l))
+				m.Cs = []int{}
+				for _, i := range perm(r, len(l))[:k] {
+					m.Cs = append(m.Cs, l[i])
+				}
+			}
 		}
 		m.Bad = r.Chance(1, 12)
 		if sender == s.root && !m.Bad {
@@ -484,7 +503,7 @@ func genMsg(r *Rng, s *shadow, depth int) c16Msg {
 
 func genC16Case(r *Rng) c16Case {
 	cs := c16Case{Root: r.Intn(nActors), Contracts: []int{}, Grants: []c16Grant{}}
-	nc := r.Pick(3, 3, 3, 2)
+	nc := r.Pick(3, 3, 3, 3, 2)
 	for i := 0; i < nc; i++ {
 		cs.Contracts = append(cs.Contracts, r.Intn(nActors))
 	}
@@ -532,6 +551,12 @@ func openers() []c16Case {
 		{Root: 0, Contracts: []int{1, 2}, Grants: []c16Grant{}, Txs: [][]c16Msg{
 			{gated("infl_edit", 1)}, {{T: "edit", Action: "remove", Sender: 0, Cs: []int{1}}}, {gated("infl_edit", 1)},
 			{gated("infl_edit", 2)}, {{T: "edit", Action: "remove", Sender: 2, Cs: []int{2}}}, {{T: "edit", Action: "add", Sender: 1, Cs: []int{1}}}}},
+		// several removals in one message: every one of them must be gone afterwards
+		{Root: 0, Contracts: []int{1, 2, 3, 4}, Grants: []c16Grant{}, Txs: [][]c16Msg{
+			{{T: "edit", Action: "remove", Sender: 0, Cs: []int{1, 2}}}, {gated("oracle", 1)}, {gated("oracle", 2)},
+			{{T: "edit", Action: "add", Sender: 0, Cs: []int{1, 2, 5}}},
+			{{T: "edit", Action: "remove", Sender: 0, Cs: []int{5, 4, 3, 2, 1}}},
+			{gated("infl_toggle", 1)}, {gated("infl_toggle", 2)}, {gated("infl_toggle", 3)}, {gated("infl_toggle", 4)}, {gated("infl_toggle", 5)}}},
 		// atomicity: an accepted edit followed by a rejected message in the same tx is rolled back
 		{Root: 0, Contracts: []int{}, Grants: []c16Grant{}, Txs: [][]c16Msg{
 			{{T: "edit", Action: "add", Sender: 0, Cs: []int{4}}, gated("oracle", 5)},
